@@ -935,6 +935,68 @@ func closeDrainNotifyProbe(m *meta) {
 	}
 }
 
+// backlogProbe (C06): while the notifier is busy inside a listener, the SAME key leaves the cache several times for
+// the same reason; every departure must be reported with the value it held (no folding of adjacent entries).
+func backlogProbe(m *meta, rng *rand.Rand, round int) {
+	pol := pick(rng, []kioshun.EvictionPolicy{kioshun.LRU, kioshun.FIFO, kioshun.SieveTinyLFU, kioshun.LFU})
+	ctx := fmt.Sprintf("notifier backlog round %d policy %v", round, pol)
+	gate := make(chan struct{})
+	var first, entered atomic.Bool
+	first.Store(true)
+	var mu sync.Mutex
+	got := map[int]int{}
+	c, err := kioshun.New[int, int](kioshun.Config{ShardCount: pick(rng, []int{1, 2}), EvictionPolicy: pol, MaxSize: pick(rng, []int64{0, 64})},
+		kioshun.WithOnRemove(func(k, v int, r kioshun.RemovalReason) {
+			if first.CompareAndSwap(true, false) {
+				entered.Store(true)
+				<-gate
+			}
+			mu.Lock()
+			got[v]++
+			mu.Unlock()
+		}))
+	must(err)
+	watch(ctx)
+	defer unwatch()
+	c.Set(1, 1, kioshun.NoExpiration)
+	c.Delete(1)
+	for t0 := time.Now(); !entered.Load() && time.Since(t0) < 2*time.Second; {
+		runtime.Gosched()
+	}
+	want := []int{1}
+	for i := 0; i < 4; i++ { // four consecutive departures of key 9 with reason deleted
+		c.Set(9, 90+i, kioshun.NoExpiration)
+		c.Delete(9)
+		want = append(want, 90+i)
+	}
+	for i := 0; i < 3; i++ { // then three with reason expired (discovered by Get)
+		c.Set(9, 190+i, time.Nanosecond)
+		time.Sleep(time.Microsecond)
+		c.Get(9)
+		want = append(want, 190+i)
+	}
+	close(gate)
+	for t0 := time.Now(); time.Since(t0) < 2*time.Second; time.Sleep(200 * time.Microsecond) {
+		c.VerifFlushRemovals()
+		mu.Lock()
+		n := len(got)
+		mu.Unlock()
+		if n >= len(want) {
+			break
+		}
+	}
+	mu.Lock()
+	for _, v := range want {
+		if got[v] != 1 {
+			m.violate("C06", fmt.Sprintf("%s: the entry holding v%d left the cache (Delete / expiry) while the notifier was busy; it was reported %d times, want 1 (received %v)", ctx, v, got[v], got), ctx)
+			break
+		}
+	}
+	mu.Unlock()
+	c.Close()
+	m.count("backlog_rounds")
+}
+
 // flickerProbe replays the schedule of C02.v's c02_atomic_refuted on the real cache through the yield hooks:
 // a reader parked after loading a matching tag, the key deleted and re-inserted into the same slot, the
 // writer parked between publish's item store and tag store. Finding F10 when it reproduces.
@@ -1265,6 +1327,7 @@ func streamConc(o opts) {
 			syncOvertake(m, rng, r)
 			syncFence(m, rng, r)
 			closeNotify(m, rng, r)
+			backlogProbe(m, rng, r)
 			m.nontrivial(fmt.Sprintf("async+close/%d", r%16))
 		case 3:
 			tableRace(m, rng, r)
